@@ -50,6 +50,8 @@ H = [
     ('Queue_int__eq', '_ZNK6muscle5QueueIiEeqERKS1_', 'QI *q; QI *o;', 'q, o', True),
     ('Queue_int__ShrinkToFit', '_ZN6muscle5QueueIiE11ShrinkToFitEj', 'QI *q; unsigned int n;', 'q, n', True),
     ('Queue_int__EnsureCanAdd', '_ZN6muscle5QueueIiE12EnsureCanAddEj', 'QI *q; unsigned int n;', 'q, n', True),
+    ('Queue_int__SwapContents', '_ZN6muscle5QueueIiE12SwapContentsERS1_', 'QI *q; QI *o;', 'q, o', True),
+    ('Queue_int__assign', '_ZN6muscle5QueueIiEaSERKS1_', 'QI *q; QI *o;', 'q, o', True),
     ('Queue_int__GetArrayPointerAux', '_ZNK6muscle5QueueIiE18GetArrayPointerAuxEjRj', 'QI *q; unsigned int w; unsigned int *l;', 'q, w, l', True),
     ('Queue_int__Swap', '_ZN6muscle5QueueIiE4SwapEjj', 'QI *q; unsigned int a; unsigned int b;', 'q, a, b', True),
     ('Queue_int__Normalize', '_ZN6muscle5QueueIiE9NormalizeEv', 'QI *q;', 'q', True),
@@ -183,7 +185,7 @@ def only_present(contracts, present, amap):
     # keep the preamble (macros, ghosts) and the contract declarations whose subject is in this TU
     import re
     out = []
-    parts = re.split(r'(?m)^(?=(?:struct status_t|unsigned int|void|int|_Bool|int \*)\s*\**Queue_int__)', contracts)
+    parts = re.split(r'(?m)^(?=(?:struct status_t|unsigned int|void|int|_Bool|int \*|QI \*)\s*\**Queue_int__)', contracts)
     out.append(parts[0])
     for p in parts[1:]:
         m = re.match(r'[^(]*?(Queue_int__[A-Za-z0-9_]+)\(', p)
@@ -204,7 +206,7 @@ def jobs(tier):
     import re
     J = []
     lowered = set(L.fname(L.byid[f]) for f in L.order)
-    SLOW = ('Queue_int__Normalize', 'Queue_int__InsertItemAt__2')
+    SLOW = ('Queue_int__Normalize', 'Queue_int__InsertItemAt__2', 'Queue_int__SwapContents')
     for alias, mangled, decls, args, loops in H:
         if alias in SLOW and not os.environ.get('MV_SLOW'):
             continue   # contract written; the solver needs > 5 min / > 12 GB at capacity 4 (see DESIGN change log)
